@@ -516,3 +516,59 @@ func ruleSCANSIZE(c *Ctx) {
 		c.Ok(rule, key, f.Pos(), "the returned size is made of 0, len(text) and cursor offsets only (%d values examined)", n)
 	}
 }
+
+// GUARD(eoi-cycle): at the end of input every generated scanner (and Tables.Scan) keeps feeding
+// the end-of-input symbol while the state is non-negative, without consuming anything. The scan
+// therefore terminates only if the DFA has no cycle made of end-of-input transitions
+// (`/a{eoi}*/` has one). generate() must refuse such tables: it follows action[EOI] from each
+// state with a seen-set and reports an error on a repeat.
+func ruleEOICYCLE(c *Ctx) {
+	const rule = "GUARD(eoi-cycle)"
+	key := "lex.generator.generate:eoi-cycle"
+	f := c.SSAFunc("lex", "(*generator).generate")
+	if f == nil {
+		c.Lost(rule, key, "function not found")
+		return
+	}
+	for _, lp := range naturalLoops(f) {
+		// the loop advances along .action[0]
+		follows := false
+		var lookups []*ssa.Lookup
+		for b := range lp.Body {
+			for _, ins := range b.Instrs {
+				switch x := ins.(type) {
+				case *ssa.IndexAddr:
+					if k, ok := x.Index.(*ssa.Const); ok && k.Value != nil && k.Int64() == 0 && strings.HasSuffix(vpath(x.X), ".action") {
+						follows = true
+					}
+				case *ssa.Lookup:
+					if _, isMap := x.X.Type().Underlying().(*types.Map); isMap {
+						lookups = append(lookups, x)
+					}
+				}
+			}
+		}
+		if !follows || len(lookups) == 0 {
+			continue
+		}
+		// a repeat leads to a diagnostic and out of the function
+		reports := false
+		for _, b := range f.Blocks {
+			if !lp.Header.Dominates(b) {
+				continue
+			}
+			for _, ins := range b.Instrs {
+				if call, ok := ins.(*ssa.Call); ok {
+					if g := call.Call.StaticCallee(); g != nil && (g.Name() == "Add" || g.Name() == "Errorf") && strings.Contains(calleeName(g), "Status") {
+						reports = true
+					}
+				}
+			}
+		}
+		if reports {
+			c.Ok(rule, key, lp.Header.Instrs[0].Pos(), "generate follows action[EOI] with a seen-set and reports a cycle of end-of-input transitions")
+			return
+		}
+	}
+	c.Bad(rule, key, f.Pos(), "generate never checks for a cycle of end-of-input transitions: a pattern such as /a{eoi}*/ compiles, and every scanner built from the tables spins forever at the end of the input")
+}
